@@ -128,7 +128,7 @@ func TestMain(m *testing.M) {
 	if k := os.Getenv("C14_CHILD"); k != "" {
 		os.Exit(firstDecode(k))
 	}
-	R.Require("first_decode", "loader_history")
+	R.Require("first_decode", "loader_history", "pubkey_x_ge_n")
 	for _, s := range []string{"pkcs8pem", "pkcs8pem_pwd", "pubpem", "pkix", "hexpriv", "hexpub", "compress", "sigder", "cipherasn1"} {
 		R.Require(s+"/lz_d", s+"/lz_x", s+"/lz_y")
 	}
@@ -589,6 +589,61 @@ func sm2KeyPEM(t interface{ Fatalf(string, ...any) }, k gen.Key) []byte {
 		t.Fatalf("WritePrivateKeyToPem: %v", err)
 	}
 	return b
+}
+
+// Public keys at the edge of the FIELD: curve points whose x coordinate lies in [n, p) - above the group order, below the
+// prime (the first few on-curve x counting down from p-1, both signs of y). No private key is needed for the public-key
+// serializers: hexadecimal, compressed, PKIX DER and PEM must give back the same point.
+func TestC14_PublicKeysNearP(t *testing.T) {
+	found := 0
+	for k := int64(1); k < 200 && found < 6; k++ {
+		x := new(big.Int).Sub(cv.P, big.NewInt(k))
+		// y^2 = x^3 + a x + b; p = 3 mod 4
+		rhs := new(big.Int).Mul(x, x)
+		rhs.Mul(rhs, x).Add(rhs, new(big.Int).Mul(cv.A, x)).Add(rhs, cv.B).Mod(rhs, cv.P)
+		e := new(big.Int).Add(cv.P, big.NewInt(1))
+		e.Rsh(e, 2)
+		y := new(big.Int).Exp(rhs, e, cv.P)
+		if new(big.Int).Exp(y, big.NewInt(2), cv.P).Cmp(rhs) != 0 {
+			continue
+		}
+		found++
+		if x.Cmp(cv.N) < 0 {
+			t.Fatalf("harness: x below n")
+		}
+		for _, yy := range []*big.Int{y, new(big.Int).Sub(cv.P, y)} {
+			pt := rsm2.Point{X: x, Y: yy}
+			pub := sm2x.Pub(pt)
+			same := func(what string, got *sm2.PublicKey, err error) {
+				if err != nil || got == nil || got.X.Cmp(x) != 0 || got.Y.Cmp(yy) != 0 {
+					t.Fatalf("%s does not give back the public key (x = p-%d, a valid curve point with x >= n): err=%v", what, k, err)
+				}
+			}
+			var got *sm2.PublicKey
+			var err error
+			if pn := hx.Try(func() { got, err = gx509.ReadPublicKeyFromHex(gx509.WritePublicKeyToHex(pub)) }); pn != nil {
+				t.Fatalf("hex public key round trip panicked: %v", pn.Val)
+			}
+			same("ReadPublicKeyFromHex(WritePublicKeyToHex)", got, err)
+			if pn := hx.Try(func() { got, err = sm2.Decompress(sm2.Compress(pub)), nil }); pn != nil {
+				t.Fatalf("Compress/Decompress panicked: %v", pn.Val)
+			}
+			same("Decompress(Compress)", got, err)
+			var pemb []byte
+			if pn := hx.Try(func() {
+				if pemb, err = gx509.WritePublicKeyToPem(pub); err == nil {
+					got, err = gx509.ReadPublicKeyFromPem(pemb)
+				}
+			}); pn != nil {
+				t.Fatalf("PEM public key round trip panicked: %v", pn.Val)
+			}
+			same("ReadPublicKeyFromPem(WritePublicKeyToPem)", got, err)
+			R.Case(true, hx.HashKey("nearp", k, yy.Bit(0)), "pubkey_x_ge_n")
+		}
+	}
+	if found < 6 {
+		t.Fatalf("harness: only %d curve points found near p", found)
+	}
 }
 
 func TestC14_Loaders(t *testing.T) {
